@@ -7,6 +7,7 @@ import pty
 import shutil
 import subprocess
 import threading
+import time
 
 import common
 import corpus
@@ -188,19 +189,24 @@ def parse_cp(line):
 class Case:
     def __init__(self, argv, stdin=None, mode="pipe", close_after=None, fifos=None):
         self.argv, self.stdin, self.mode, self.close_after = argv, stdin, mode, close_after
-        self.fifos = fifos or {}      # relative path -> bytes a writer feeds into that FIFO
+        # relative path -> bytes a writer feeds into that FIFO (a list of pieces: written one by one, with a pause in between)
+        self.fifo_pieces = {k: (list(v) if isinstance(v, (list, tuple)) else [v]) for k, v in (fifos or {}).items()}
+        self.fifos = {k: b"".join(v) for k, v in self.fifo_pieces.items()}
 
 
 def run_case(binary, cwd, c):
     """run_xt with writers on the case's FIFOs."""
     threads = []
-    for name, data in c.fifos.items():
+    for name, pieces in c.fifo_pieces.items():
         path = os.path.join(cwd, name)
 
-        def feed(path=path, data=data):
+        def feed(path=path, pieces=pieces):
             try:
-                with open(path, "wb") as f:
-                    f.write(data)
+                with open(path, "wb", buffering=0) as f:
+                    for k, piece in enumerate(pieces):
+                        if k:
+                            time.sleep(0.15)
+                        f.write(piece)
             except OSError:
                 pass
         t = threading.Thread(target=feed, daemon=True)
